@@ -61,6 +61,9 @@ func runC04(c *runCtx) {
 	inputs = append(inputs, c04in{[]byte(strings.Repeat("[", 5000) + strings.Repeat("]", 5000)), 0}, c04in{[]byte(strings.Repeat("{\"k\":", 200)), 3072},
 		c04in{[]byte(strings.Repeat("[", 200)), 3072}, c04in{[]byte(strings.Repeat("{\"k\":[", 2100) + "1" + strings.Repeat("]}", 2100)), 0})
 	aborters = append(aborters, len(inputs)-4, len(inputs)-3, len(inputs)-2, len(inputs)-1)
+	// inputs whose lines never reach a token (empty, white space only): nothing of an earlier parse may stand in
+	inputs = append(inputs, c04in{[]byte("\n1\n2\n"), 3072}, c04in{[]byte("{\"a\":1}\n \n{\"b\":2}\n"), 3072}, c04in{[]byte("\n\n"), 3072}, c04in{[]byte(" \n[1]\n{\"a\":2}\n"), 0},
+		c04in{[]byte("1"), 3072}, c04in{[]byte("\"s\""), 3072}, c04in{[]byte("{}"), 3072}, c04in{[]byte("[[],{}]"), 3072})
 	for i := range inputs {
 		if bytes.HasPrefix(inputs[i].data, []byte("a,b\tc\n1\n")) || bytes.HasPrefix(inputs[i].data, []byte("x,y,z\n1,2\n")) || bytes.HasPrefix(inputs[i].data, []byte("h1\th2\n1\n")) {
 			aborters = append(aborters, i)
